@@ -180,6 +180,11 @@ func (p *Prog) normalise() (err error) {
 			if strings.HasSuffix(p.Fset.Position(f.Pos()).Filename, "_test.go") {
 				continue
 			}
+			if f.Synthetic != "" && f.Name() == "init" {
+				// the package initialiser keeps its calls: the values of
+				// package-level tables are read off it (boolfn/globals.go)
+				continue
+			}
 			all = append(all, f)
 		}
 	}
